@@ -908,6 +908,12 @@ def mean(a, axis=None):
         C().oblige('mean-of-nonempty', tot > 0, 'safety')
     if isinstance(s, SArr):
         return SArr(s.shape_e, lambda *ix: to_real(s.elem(*ix)) / z3.ToReal(tot), 'f')
+    if concrete(tot) is None and not Ctx.spec:
+        # division by a symbolic count is non-linear: name the quotient and keep its defining fact away from the feasibility solvers
+        c = C()
+        m = c.fresh('mean', R)
+        c.assume(m * z3.ToReal(tot) == to_real(lift(s)), feas=False)
+        return wrap(m)
     return wrap(to_real(lift(s)) / z3.ToReal(tot))
 
 
